@@ -303,6 +303,21 @@ impl<'a> ConstraintValidator<'a> {
 
         // For each of the indexes, check if we can build a new entry with the
         for index in indexes {
+            // An index entry cannot be built from a NULL key. Refuse the row here, before anything
+            // is stored: failing later, while the index is maintained, leaves the table row behind.
+            for &idx in index.indexed_column_ids() {
+                if values.get(idx).is_some_and(|v| v.is_null()) {
+                    let col_name = self
+                        .schema
+                        .column(idx)
+                        .map(|c| c.name().to_string())
+                        .unwrap_or_default();
+                    return Err(ValidationError::NonNullConstraintViolated(
+                        DatabaseItem::Column(self.table_name.clone(), col_name),
+                    ));
+                }
+            }
+
             let is_conflict = self.search_index(&index, values, skip_nulls, &excluded_set)?;
             if is_conflict {
                 let col_names: Vec<&str> = index
